@@ -26,9 +26,12 @@ def intersect_lines(p0, q0, p1, q1):
     k = np.cross(f, e)
     h_ = vg.magnitude(h)
     k_ = vg.magnitude(k)
-    if h_ == 0 or k_ == 0:
+    if k_ == 0:
         # There is no intesection; either parallel (k=0) or collinear (both=0) lines.
         return None
+    if h_ == 0:
+        # p0 lies on line 1, so it is the intersection.
+        return p0
 
     # Check for the special case of lines in parallel planes.
     # https://math.stackexchange.com/a/697278/640314
@@ -38,7 +41,7 @@ def intersect_lines(p0, q0, p1, q1):
     l = (  # noqa: E741 This variable name is non-descriptive in addition to being ambiguous.
         h_ / k_ * e
     )
-    sign = -1 if np.all(h / h_ == k / k_) else +1
+    sign = -1 if np.dot(h, k) > 0 else +1
     return p0 + sign * l
 
 
